@@ -17,6 +17,7 @@ async def build(sg, renv, sources, log):
     def mk(field):
         async def source(parent, args, ctx, info):
             log.append(("start", field, enc(dict(args))))
+            if isinstance(ctx, dict): ctx["source_saw"] = ctx.get("source_saw", 0) + 1     # the caller's context object, also when it is empty
             shared = {}
             for ev in sources[field]:
                 log.append(("event", field))
@@ -144,8 +145,9 @@ async def explore(tier, seed, m):
                 init = {"d": [[f["name"], sg.value_for(f["type"], 1, 0.0)]]}
             import copy as _copy
             pristine = _copy.deepcopy(variables)
+            caller_ctx = {} if rng.random() < 0.5 else None        # an EMPTY dict is a context like any other
             try:
-                async for payload in b.engine.subscribe(q, operation_name=opn, variables=variables, initial_value=dec(init) if init is not None else None):
+                async for payload in b.engine.subscribe(q, operation_name=opn, variables=variables, initial_value=dec(init) if init is not None else None, context=caller_ctx):
                     resps.append(payload)
             except Exception as e:
                 stats["problems"].append({"what": [f"subscribe raised {type(e).__name__}: {e}"[:300]], "query": q, "variables": variables, "kind": kind}); continue
@@ -160,6 +162,8 @@ async def explore(tier, seed, m):
                 doc = er.parse_doc(q); syntax_ok = True
             except Exception:
                 doc, syntax_ok = None, False
+            if caller_ctx is not None and starts and caller_ctx.get("source_saw") != len(starts):
+                pr.append("the source function did not receive the context object the caller passed (an empty dict)")
             if changed_vars: pr.append("the variables object the caller passed was modified while the stream was consumed: the variables are coerced again for every event, so later events are answered from other values than the request's")
             sv = orc.SchemaView(b.model)
             refused = (not syntax_ok) or kind in ("validation-error", "unknown-operation", "syntax-error")
